@@ -27,6 +27,7 @@ def funcKindRT (ir : IR) (inline edd : Bool) (level : Nat) (emitSepTab : Bool) :
   | some _ => .unmodelled "a return entry with a default (the emitted `return <expr>`)"
   | none =>
   if ir.params.any (fun kp => FuncAttr.negUnderStr kp.2) then .unmodelled "a negative number under a str-mentioning type stays an ast node" else
+  if ir.params.any (fun kp => !ClassAttr.identText kp.1) then .unmodelled "a name that is not an identifier (the emitted text does not parse)" else
   (toDocstring ir edd level (!inline) emitSepTab).bind fun text =>
   (cleandoc text).bind fun doc =>
   if doc.isEmpty then .unmodelled "empty docstring" else
